@@ -82,7 +82,10 @@ def judge(case):
     if case["kind"] == "history":
         return judge_history(case)
     defn = case["def"]
-    text = "\r\n".join(Z.render(defn)) + "\r\n"
+    lines = Z.render(defn)
+    if case.get("xprops"):      # extension properties inside the definition (X-LIC-LOCATION and the like): ignored by the semantics
+        lines = lines[:2] + [f"X-LIC-LOCATION:{defn['tzid']}", "X-VERIF;X-P=1:anything"][:case["xprops"]] + lines[2:]
+    text = "\r\n".join(lines) + "\r\n"
     ons, ts = instants(defn, case.get("extra", []))
     fails = []
     plain = plain_alternation(defn)
@@ -223,6 +226,8 @@ def info(case):
         classes.append("has-count")
     if any(o.get("rrule") and o["rrule"].get("interval") for o in defn["obs"]):
         classes.append("has-interval")
+    if case.get("xprops"):
+        classes.append("extension-properties-in-the-definition")
     if len(defn["obs"]) >= 2 and len({o.get("name") for o in defn["obs"]}) == 1 and defn["obs"][0].get("name"):
         classes.append("same-tzname-for-all-observances")
     if any(not o.get("name") for o in defn["obs"]):
@@ -345,7 +350,7 @@ def definitions(draw):
     assume(len(times) == len(set(times)))
     assume(_representable(defn))
     return {"kind": "def", "style": style, "unchained": unchained, "def": defn,
-            "extra": draw(st.lists(st.integers(0, 2 ** 31), max_size=12))}
+            "extra": draw(st.lists(st.integers(0, 2 ** 31), max_size=12)), "xprops": draw(st.sampled_from([0, 0, 0, 1, 2]))}
 
 
 @st.composite
